@@ -236,6 +236,17 @@ def r17_3(ctx):
             ctx.check(f"terminal priority {other} >= IDENTIFIER", False, f">= {idp}", str(t["priority"]), gm.where(other))
     pf = [" ".join(s[0] for s in a.symbols) for a in gm.rules.get("postfix_expr", [])]
     ctx.check("postfix_expr: primary first", pf and pf[0] == "primary_expr", "primary_expr first", str(pf[:2]), gm.where("postfix_expr"))
+    # the children of a statement node are told apart by position (for: init, condition, step, body; if: condition, then, else):
+    # every alternative of these rules has a fixed number of children - no inlined sub-rule that contributes a child in one
+    # derivation and none in another (an empty for-clause must leave its slot behind)
+    n_fixed = 0
+    for rname in ("iteration_stmt", "selection_stmt", "labeled_stmt", "conditional_expr", "cast_expr", "init_declarator", "declaration"):
+        for a in gm.rules.get(rname, []):
+            var = [c.name for c in a.children if c.kind == "splice" and len(gm._counts.get(c.name, {None})) != 1]
+            n_fixed += 1
+            if var:
+                ctx.check(f"{rname}: `{a.text()[:70]}` has a fixed number of children", False, "one child per role", f"inlined {var} contribute {sorted(map(str, gm._counts.get(var[0], [])))} children", gm.where(rname))
+    ctx.check("statement alternatives have one child per role (scan done)", n_fixed >= 8, ">= 8 alternatives inspected", str(n_fixed), gm.where("iteration_stmt"), nontrivial=False)
     # compound_stmt / gcc_extended_expr, selection
     cs = [" ".join(s[0] for s in a.symbols) for a in gm.rules.get("_reg_variant", [])]
     ctx.check("_reg_variant order (alias, .new, plain, explicit)", cs == ["HEX_REG_ALIAS_ reg_alias", "new_reg N", "reg V", "explicit_reg"], "alias, new, plain, explicit", str(cs), gm.where("_reg_variant"))
